@@ -28,7 +28,7 @@ var (
 
 var c15Inspecting = []string{"generate", "generate-stdin", "generate-missing", "compare", "compare-all", "compare-all-github", "compare-github", "format-check", "format-check-all", "format-check-all-github",
 	"renumber-check", "renumber-check-all", "renumber-check-all-github", "version", "completion-bash", "completion-zsh", "completion-fish", "completion-powershell", "help", "regex-help", "copyright-noversion", "copyright-badversion", "update-badarg", "format-missing",
-	"format-check-missing-rule", "format-check-missing-chain", "format-check-missing-include", "format-check-lint", "format-check-lint-all", "copyright-dir-outside-any-root", "renumber-all-dir-outside-any-root", "renumber-dir-outside-any-root", "renumber-decoy-orig", "renumber-decoy-txt", "renumber-decoy-readme", "renumber-check-decoy", "compare-missing", "update-missing-assembly"}
+	"format-check-missing-rule", "format-check-missing-chain", "format-check-missing-include", "format-check-lint", "format-check-lint-all", "copyright-dir-outside-any-root", "renumber-all-dir-outside-any-root", "renumber-dir-outside-any-root", "renumber-decoy-orig", "renumber-decoy-txt", "renumber-decoy-readme", "renumber-check-decoy", "compare-missing", "update-missing-assembly", "update-offset-beyond-chain", "update-rule-gone"}
 var c15Rewriting = []string{"format", "format-include", "format-include-cwd-elsewhere", "format-include-cwd-rules", "format-rule-cwd-elsewhere", "format-all", "update", "update-all", "renumber", "renumber-all", "copyright", "update-decoy-sorts-first", "update-all-decoy-sorts-first"}
 
 func c15Check(env *core.Env, cc core.Case) core.Verdict {
@@ -176,6 +176,17 @@ func c15Check(env *core.Env, cc core.Case) core.Verdict {
 		inspecting, args = true, []string{"regex", "compare", "999999"}
 	case "update-missing-assembly":
 		inspecting, args = true, []string{"regex", "update", "999998"}
+	case "update-offset-beyond-chain", "update-rule-gone":
+		// an update that finds the rules file and then has to give up (no chained rule at that offset; the rule is not in
+		// the file): a refused update writes nothing and leaves nothing behind
+		key := t0.ID + "-chain9"
+		if c.Cmd == "update-rule-gone" {
+			key = t0.File.prefix() + "999"
+		}
+		if err := (sut.Tree{"regex-assembly/" + key + ".ra": "orphan\n"}).Write(root); err != nil {
+			return core.Incon("cannot write: %v", err)
+		}
+		inspecting, args = true, []string{"regex", "update", key}
 	case "renumber-check":
 		inspecting, args = true, []string{"util", "renumber-tests", "--check", testRule}
 	case "renumber-check-all":
@@ -273,6 +284,15 @@ func c15Check(env *core.Env, cc core.Case) core.Verdict {
 	dir := root
 	if c.DirAt != "" {
 		dir = filepath.Join(root, c.DirAt)
+	}
+	if c.DirAt == "shared-tests" {
+		// -d names a directory of this checkout that is a link into another checkout: the root is the nearest ancestor of
+		// the path as given, not of the place the link leads to
+		if err := (sut.Tree{"../other-crs/regex-assembly/" + t0.Key + ".ra": "      of the other checkout\n", "../other-crs/regex-assembly/include/inc1.ra": "    other\n", "../other-crs/tests/regression/tests/REQUEST-X/920100.yaml": "  - test_id: 9\n  - test_id: 4\n\n\n",
+			"../other-crs/rules/REQUEST-" + t0.File.prefix() + "-OTHER.conf": "# OWASP CRS ver.1.0.0\nSecRule ARGS \"@rx other\" \\\n    \"id:" + t0.ID + ",\\\n    ver:'OWASP_CRS/1.0.0'\"\n", "../other-crs/crs-setup.conf.example": "# OWASP CRS ver.1.0.0\n",
+			"shared-tests": sut.SymlinkPrefix + "../other-crs/tests"}).Write(root); err != nil {
+			return core.Incon("cannot write decoy: %v", err)
+		}
 	}
 	if strings.HasPrefix(c.DirAt, "regex-assembly-") || strings.HasPrefix(c.DirAt, "regex-assembly.") {
 		// -d at a directory inside the root whose name merely starts like the assembly directory; it holds files that
@@ -402,7 +422,7 @@ func init() {
 		Cases: func(env *core.Env, rng *rand.Rand) []core.Case {
 			trees := env.N(10, 80)
 			var cs []core.Case
-			dirs := []string{"", "", "rules", "regex-assembly/include", "tests/regression", "", "rules", "regex-assembly/include", "regex-assembly-old", "regex-assembly.bak/include"}
+			dirs := []string{"", "", "rules", "regex-assembly/include", "tests/regression", "", "rules", "regex-assembly/include", "regex-assembly-old", "regex-assembly.bak/include", "shared-tests", "shared-tests"}
 			for i := 0; i < trees; i++ {
 				p := projGen(rng)
 				p.addDecoys(rng)
